@@ -77,6 +77,13 @@ pub fn programs() -> Vec<(String, String)> {
             out.push((format!("{}-blocks-in-one-{}-frame", n, fname), crate::render::text(&prog, crate::render::Style::Minimal)));
         }
     }
+    // values nested 300..1000 deep reaching print (1000 is the chain length the toolchain is
+    // asked to print without exhausting its stack): every build must make the same of them
+    for n in [300usize, 600, 800, 1000] {
+        out.push((format!("printed-chain-of-{}-objects", n), format!("let cur = null; let i = 0; while i < {} do begin cur <- object begin let f = cur end; i <- i + 1 end; print(\"~\\n\", cur)", n)));
+        out.push((format!("printed-chain-of-{}-arrays", n), format!("let cur = 0; let i = 0; while i < {} do begin cur <- array(1, cur); i <- i + 1 end; print(\"~\\n\", cur)", n)));
+        out.push((format!("printed-chain-of-{}-parents", n), format!("let cur = null; let i = 0; while i < {} do begin cur <- object extends cur begin let k = i end; i <- i + 1 end; print(\"~\\n\", cur)", n)));
+    }
     // integer literals around the 32-bit range (beyond it the parser refuses; it must do so alike everywhere)
     for (name, lit) in [("max", "2147483647"), ("min", "-2147483648"), ("max-plus-1", "2147483648"), ("min-minus-1", "-2147483649"), ("u32-max", "4294967295"), ("i64-max-plus-1", "9223372036854775808")] {
         out.push((format!("integer-literal-{}", name), format!("print(\"before\\n\"); print(\"~\\n\", {})", lit)));
